@@ -157,7 +157,8 @@ func (c *TextLayout) ToBytes(e *Event) []byte {
 	enc.AppendEncoderEnd()
 
 	buf.WriteByte('\n')
-	return buf.Bytes()
+	// buf goes back to the pool on return: hand out a copy, not its storage.
+	return bytes.Clone(buf.Bytes())
 }
 
 // JSONLayout formats a log event as a structured JSON object.
@@ -188,5 +189,6 @@ func (c *JSONLayout) ToBytes(e *Event) []byte {
 	enc.AppendEncoderEnd()
 
 	buf.WriteByte('\n')
-	return buf.Bytes()
+	// buf goes back to the pool on return: hand out a copy, not its storage.
+	return bytes.Clone(buf.Bytes())
 }
